@@ -15,7 +15,7 @@ GNext == /\ Len(hist) < MaxDepth
                            /\ st' \in Step(st, o)
                            /\ ~Ambiguous(st')
                            /\ hist' = Append(hist, o)
-                           /\ feat' = feat \cup Features(st, o)
+                           /\ feat' = feat \cup Features(st, o) \cup StateFeatures(st')
 Emit == PrintT(ToJson([ops |-> hist', feat |-> feat']))
 View == st
 Inv == TypeOK(st) /\ OwnWins(st) /\ NothingFromNowhere(st)
